@@ -96,8 +96,10 @@ void harness(void)
         const int verdict = ref_classify(vp_rx.oct, len, &rf);
         if (verdict != REF_OK && verdict != REF_SIZE_EITHER)
             VP_ASSERT(vp_bl.calls == 0, "C09.txerr.frame-failing-the-independent-reading-never-executed");
+#if KEXTRA >= 14 && (!defined(ALLOC_FAILS) || !ALLOC_FAILS)
         VP_WITNESS(verdict == REF_BADHDCRC && sent_by_recv == 1 && rc == in.txerr, "C09.txerr.meta-send-fails.reach");
         VP_WITNESS(verdict == REF_OK && vp_bl.calls == 1 && rcp == in.txerr, "C09.txerr.executed-reply-fails.reach");
+#endif
     } else {
         VP_ASSERT(vp_bl.calls == 0, "C09.txerr.oversized-empty-or-busy-never-executed");
     }
@@ -106,6 +108,9 @@ void harness(void)
     VP_ASSERT(vp_al.frees == vp_al.granted, "C09.txerr.ledger-counts");
 #if KEXTRA >= 14 && KEXTRA < LMAX && (!defined(ALLOC_FAILS) || !ALLOC_FAILS)
     VP_WITNESS(len > KEXTRA && sent_by_recv == 1 && rc == in.txerr, "C09.txerr.overflow-reply-fails.reach");
+#endif
+#if defined(ALLOC_FAILS) && ALLOC_FAILS
+    VP_WITNESS(sent_by_recv == 1 && rc == in.txerr && mf.error.id == EBUSY, "C09.txerr.busy-reply-fails.reach");
 #endif
     return;
 #else
